@@ -49,6 +49,8 @@ def type_of_loc(sx, cell, path):
 def havoc_value(sx, rec, old, ty, label):
     """Fresh symbolic value of the same shape as `old` (struct shapes are kept so that
     field-wise updates stay visible; everything else becomes one typed symbol)."""
+    if old == T.AUX:
+        return old     # auxiliary data stays auxiliary
     if old[0] == 'adt' and isinstance(old[1], str) and old[1].startswith('verif::iter::'):
         # a structured iterator (adapter chain) carried through the loop keeps its shape: the bases keep
         # their identity (references to the cells of the underlying iterators stay references)
